@@ -81,6 +81,8 @@ def run(repo, rep, tier):
     r4 = rep.rule('C15.R4', 'documented refusals and validation first')
     r5 = rep.rule('C15.R5', 'operation triples and parameter pass-through')
     r6 = rep.rule('C15.R6', 'path completion in the traditional fallback')
+    from .c04 import explicit_namespace_wins
+    explicit_namespace_wins(repo, rep, 'C15.R7')
     conn = repo.cls(OPS, 'WBEMConnection')
     iters = iter_operations(repo)
     if len(iters) != 7:
